@@ -17,12 +17,20 @@ impl EventSource for Sleep {
     fn subscribe(&mut self, co: CoroutineImpl) {
         let cancel = co_cancel_data(&co);
         // put the coroutine into the timer list
+        #[cfg(may_verif)]
+        let vid = crate::verif::co_vid(&co);
         let sleep_co = Arc::new(AtomicOption::some(co));
+        #[cfg(may_verif)]
+        crate::verif::pt("slsub.add_timer", 0, vid, 0);
         get_scheduler().add_timer(self.dur, sleep_co.clone());
 
         // register the cancel data
+        #[cfg(may_verif)]
+        crate::verif::pt("slsub.set_cancel_co", 0, vid, 0);
         cancel.set_co(sleep_co);
         // re-check the cancel status
+        #[cfg(may_verif)]
+        crate::verif::pt("slsub.recheck_cancel", 0, vid, 0);
         if cancel.is_canceled() {
             unsafe { cancel.cancel() };
         }
